@@ -1,5 +1,9 @@
-"""C08 part (c): tx -> PSET -> tx round trip over the Wire shapes (added with the Wire family)."""
+"""C08 part (c): tx -> PSET -> tx round trip over the Wire shapes (PsetTx.tla)."""
+from lib.common import vh
+from lib.props import wire_common
 
 
 def run(ck):
-    return
+    p = wire_common.gen(ck)
+    rep = vh(["psetview", "roundtrip", "--cases", p["base"], "--seed", ck.seed], timeout=7000)
+    ck.add_vh(rep, distinct_key="distinct_classes")
